@@ -48,8 +48,12 @@ THEOREMS = ("C08_partition_invisible(_file,_zip,_zips,_tsv), C08_tsv_line_compos
             "C08_tsv_channel_independent, C08_rdflib_counts_invariant (Props/C08.v)")
 
 
+_RUN_ID = None
+
+
 def workdir():
-    d = os.path.join(BASE, str(os.getpid()))
+    """work/c08/<pid of the check>/<pid of the worker>: removed as a whole when the run ends"""
+    d = os.path.join(BASE, _RUN_ID or str(os.getpid()), str(os.getpid()))
     os.makedirs(d, exist_ok=True)
     return d
 
@@ -1144,6 +1148,8 @@ def pipeprops_tuplify(ts):
 # --------------------------------------------------------------------------
 
 def run(tier, seed, replay=None):
+    global _RUN_ID
+    _RUN_ID = str(os.getpid())
     run_ = core.Run(PID, tier, seed)
     bs = core.build(PID)
     proofs_ok = core.proof_gate(run_, bs)
@@ -1322,11 +1328,7 @@ def run(tier, seed, replay=None):
             internal.append("vm cross-check crashed: %s %s" % (type(e).__name__, traceback.format_exc()[-600:]))
 
     run_.internal_errors += internal
-    shutil.rmtree(os.path.join(BASE, str(os.getpid())), ignore_errors=True)
-    for sub in os.listdir(BASE) if os.path.isdir(BASE) else []:
-        p = os.path.join(BASE, sub)
-        if os.path.isdir(p) and not os.listdir(p):
-            shutil.rmtree(p, ignore_errors=True)
+    shutil.rmtree(os.path.join(BASE, _RUN_ID), ignore_errors=True)
 
     n_channels = len(CHANNELS)
     run_.coverage.update({
